@@ -122,18 +122,56 @@ CONFIG_EABF_HARM = _EXT_CV + _ABF % "" + _HARM
 CONFIG_HIST = CONFIG_GRID[:CONFIG_GRID.index("metadynamics {")]
 # shared ABF (multiple-walker): needs a replica interface (vsim `replicas 0 2 -1 -1`: two replicas, no channel; sharedFreq
 # is larger than the run, so nothing is ever exchanged); its state has local_* grids and the OPTIONAL last_* section
+# more than two of everything, two holders of one kind, unnamed objects with default names: three variables (the second
+# unnamed: "colvar2"), two unnamed restraints (harmonic1, harmonic2), two unnamed metadynamics biases (the first, on one
+# variable, is NOT the last object; the second on two variables)
+def _cv(name, atom):
+    return "colvar {\n%s  distanceZ {\n    main { atomNumbers %d }\n    ref { dummyAtom (0,0,0) }\n    axis (0,0,1)\n  }\n}\n" % (
+        ("  name %s\n" % name) if name else "", atom)
+CONFIG_TWIN = _cv("d", 1) + _cv(None, 2) + _cv("f", 3) + """metadynamics {
+  colvars d
+  hillWeight 0.1
+  newHillFrequency 1
+  hillWidth 1.0
+  useGrids off
+}
+harmonic {
+  colvars d f
+  centers 1.0 1.0
+  forceConstant 2.0
+}
+metadynamics {
+  colvars colvar2 f
+  hillWeight 0.1
+  newHillFrequency 2
+  hillWidth 1.0
+  useGrids off
+}
+harmonic {
+  colvars colvar2
+  centers 1.0
+  forceConstant 2.0
+}
+"""
+# thermodynamic integration data of a restraint (colvarbias_ti: histogram + system_forces grids after the configuration)
+CONFIG_TI = _EXT_CV + _HARM.replace("  forceConstant 2.0\n", "  forceConstant 2.0\n  writeTIPMF on\n")
+NATOMS = {"twin": 4}
+POSITIONS = {"twin": ["pos 1 0 0 1.25", "pos 2 0 0 0.5", "pos 3 0 0 2.0"]}
 CONFIG_SABF = _EXT_CV + _ABF % "  shared on\n  sharedFreq 1000\n  CZARestimator off\n"
-CONFIGS = {"base": CONFIG, "grid": CONFIG_GRID, "extra": CONFIG_EXTRA, "eabf": CONFIG_EABF, "eabf_nocz": CONFIG_EABF_NOCZ,
-           "eabf_harm": CONFIG_EABF_HARM, "hist": CONFIG_HIST, "sabf": CONFIG_SABF}
+# the grid configuration with other boundaries (8 bins instead of 4): only a target of the cross-configuration loads
+CONFIG_GRID8 = CONFIG_GRID.replace("upperBoundary 4.0", "upperBoundary 8.0")
+CONFIGS = {"grid8": CONFIG_GRID8, "base": CONFIG, "grid": CONFIG_GRID, "extra": CONFIG_EXTRA, "eabf": CONFIG_EABF, "eabf_nocz": CONFIG_EABF_NOCZ,
+           "eabf_harm": CONFIG_EABF_HARM, "hist": CONFIG_HIST, "sabf": CONFIG_SABF, "twin": CONFIG_TWIN, "ti": CONFIG_TI}
 PRELUDE = {"extra": ["temperature 300"], "eabf": ["temperature 300"], "eabf_nocz": ["temperature 300"], "eabf_harm": ["temperature 300"],
-           "sabf": ["temperature 300", "replicas 0 2 -1 -1"]}
+           "sabf": ["temperature 300", "replicas 0 2 -1 -1"], "ti": ["temperature 300"]}
 NBINS = 4   # lowerBoundary 0, upperBoundary 4, width 1
 
 
 def scenario(sess, name=NAME, distinct=False):
     """sess = {"first": step number to start from, "pre": steps before the first save, "saves": ["text"|"binary", ...]}"""
-    L = ["unbuffered", "natoms 2"] + PRELUDE.get(sess.get("config", "base"), []) + ["new", "config EOF"] + CONFIGS[sess.get("config", "base")].strip("\n").split("\n") + ["EOF",
-         "show cv 0 atomf 0 energy 0 bias 0", "setstep %d" % sess["first"], "pos 1 0 0 1.25"]
+    cfgname = sess.get("config", "base")
+    L = ["unbuffered", "natoms %d" % NATOMS.get(cfgname, 2)] + PRELUDE.get(cfgname, []) + ["new", "config EOF"] + CONFIGS[cfgname].strip("\n").split("\n") + ["EOF",
+         "show cv 0 atomf 0 energy 0 bias 0", "setstep %d" % sess["first"]] + POSITIONS.get(cfgname, ["pos 1 0 0 1.25"])
     L += ["step"] * sess["pre"]
     for i, mode in enumerate(sess["saves"]):
         L.append("step")
@@ -147,7 +185,7 @@ def scenario(sess, name=NAME, distinct=False):
 
 
 def load_scenario(prefix, config="base", bias=False, how="file"):
-    L = ["natoms 2"] + PRELUDE.get(config, []) + ["new", "config EOF"] + CONFIGS[config].strip("\n").split("\n") + ["EOF"]
+    L = ["natoms %d" % NATOMS.get(config, 2)] + PRELUDE.get(config, []) + ["new", "config EOF"] + CONFIGS[config].strip("\n").split("\n") + ["EOF"]
     if bias:
         # colvarbias::read_state_prefix takes the file name itself when <prefix>.colvars.state is not there
         L += ["script cv bias m load %s" % prefix]
@@ -825,6 +863,13 @@ def tx_line(text, config="base"):
         cfg = "cv:%d b:%d.%d.%d.0.%s" % (wid("d"), wid("abf"), wid("abf"), wid("a"), lay)
         if config == "eabf_harm":
             cfg += ",%d.%d.%d.0" % (wid("restraint"), wid("harmonic"), wid("h"))
+    elif config == "ti":
+        cfg = "cv:%d b:%d.%d.%d.0.k%d+w%d+k%d+w%d" % (wid("d"), wid("restraint"), wid("harmonic"), wid("h"), wid("histogram"), NBINS, wid("system_forces"), NBINS)
+    elif config == "twin":
+        cfg = "cv:%d,%d,%d b:%d.%d.%d.0,%d.%d.%d.0,%d.%d.%d.1,%d.%d.%d.1" % (
+            wid("d"), wid("colvar2"), wid("f"),
+            wid("restraint"), wid("harmonic"), wid("harmonic1"), wid("restraint"), wid("harmonic"), wid("harmonic2"),
+            wid("metadynamics"), wid("metadynamics"), wid("metadynamics1"), wid("metadynamics"), wid("metadynamics"), wid("metadynamics2"))
     elif config == "sabf":
         lay = "+".join("k%d+w%d" % (wid(k), NBINS) for k in ("samples", "gradient", "local_samples", "local_gradient", "last_samples", "last_gradient"))
         cfg = "cv:%d b:%d.%d.%d.0.%s" % (wid("d"), wid("abf"), wid("abf"), wid("a"), lay)
@@ -860,6 +905,21 @@ def tb_line(data, config="base"):
             bs += ",%s.%s.0.1" % (hx("restraint"), hx("harmonic"))
     elif config == "hist":
         bs = "%s.%s.0.1.k%s+o%d" % (hx("histogram"), hx("histogram"), hx("grid"), NBINS)
+    elif config == "ti":
+        bs = "%s.%s.0.1.k%s+o%d+k%s+o%d" % (hx("restraint"), hx("harmonic"), hx("histogram"), NBINS, hx("system_forces"), NBINS)
+    elif config == "sabf":
+        # a shared ABF announces `sharedData on` in its configuration string: local and last-shared grids are mandatory
+        lay = "+".join("k%s+o%d" % (hx(k), NBINS) for k in ("samples", "gradient", "local_samples", "local_gradient", "last_samples", "last_gradient"))
+        bs = "%s.%s.0.1.%s" % (hx("abf"), hx("abf"), lay)
+    elif config == "grid":
+        # colvar_grid::read_restart on a memory_stream: read_block("grid_parameters") = the key and one string, then the values
+        g = "k%s+k%s+a0+o%d" % ("%s", hx("grid_parameters"), NBINS)
+        bs = "%s.%s.0.1.k%s+o%d,%s.%s.1.1.%s+%s" % (hx("histogram"), hx("histogram"), hx("grid"), NBINS,
+                                                      hx("metadynamics"), hx("metadynamics"), g % hx("hills_energy"), g % hx("hills_energy_gradients"))
+    elif config == "twin":
+        bs = ",".join(["%s.%s.0.1" % (hx("restraint"), hx("harmonic"))] * 2 +
+                      ["%s.%s.1.1" % (hx("metadynamics"), hx("metadynamics")), "%s.%s.1.2" % (hx("metadynamics"), hx("metadynamics"))])
+        return "TB n:3 b:%s d:%s" % (bs, data.hex())
     else:
         return None
     return "TB n:1 b:%s d:%s" % (bs, data.hex())
@@ -871,10 +931,21 @@ def other_entry_points(run, vsim, d, quick, cfgname, fmt, data, verdicts, r):
     one of the file (which the reader models are tied to); a proper prefix that one entry point accepts and the other
     rejects is reported"""
     how = "buf" if fmt == "binary" else "str"
-    pick = [v for i, v in enumerate(verdicts) if (i % (6 if quick else 4)) == 0]
+    pick = [v for i, v in enumerate(verdicts) if (i % (8 if quick else 4)) == 0]
     p = os.path.join(d.path, "dmg.colvars.state")
     n = 0
     if fmt == "binary" and len(data) > 8:
+        # a buffer that ends inside the magic number: the stream fails before any reader could report an error
+        for cut in (1, 3):
+            open(p, "wb").write(data[:cut])
+            rc, ld = try_load_(vsim, d, "dmg.colvars.state", cfgname, False, how)
+            n += 1
+            run.count("%s-binary-buf-short-%d" % (cfgname, cut), True)
+            run.dist("damage:binary-prefix-via-buffer")
+            if rc >= 128 or rc == 124 or rc < 0 or ld is None or ld[0] == "ok":
+                run.violation("load.binary-prefix-accepted-via-buf:inside-magic-number", "the first %d byte(s) of a valid binary state (%s configuration) given to set_input_state_buffer() %s"
+                              % (cut, cfgname, "are accepted without any error" if (ld and ld[0] == "ok") else "kill or hang the process (rc=%d)" % rc),
+                              {"kind": "load", "format": fmt, "config": cfgname, "cut": cut, "how": how})
         # a complete buffer whose magic number is wrong (colvarmodule::read_state(memory_stream &) is the only check on this path)
         dd = bytearray(data); dd[0] ^= 1
         open(p, "wb").write(bytes(dd))
@@ -910,8 +981,182 @@ def other_entry_points(run, vsim, d, quick, cfgname, fmt, data, verdicts, r):
     return n
 
 
+def load_measured(vsim, d, fname, config):
+    """load a state in a fresh process and measure its peak resident memory (kB) -> rc, (err, it) | None, maxrss"""
+    scn = os.path.join(d.path, "l.scn")
+    open(scn, "w").write(load_scenario(fname, config))
+    env = dict(os.environ)
+    env.update({"ASAN_OPTIONS": "abort_on_error=1:detect_leaks=0:allocator_may_return_null=1", "UBSAN_OPTIONS": "halt_on_error=1:abort_on_error=1",
+                "OMP_NUM_THREADS": "1"})
+    pr = subprocess.Popen(["timeout", "-s", "KILL", "20", vsim, scn], cwd=d.path, stdout=subprocess.PIPE, stderr=subprocess.DEVNULL, env=env)
+    out = pr.stdout.read().decode("latin1")
+    pid, status, ru = os.wait4(pr.pid, 0)
+    pr.returncode = -(status & 0x7f) if (status & 0x7f) else (status >> 8)
+    os.remove(scn)
+    m = re.search(r"LOAD err=(\S+) it=(-?\d+)", out)
+    return pr.returncode, ((m.group(1), int(m.group(2))) if m else None), ru.ru_maxrss
+
+
+def run_corrupt_counts(run, vsim, d, quick):
+    """a count or a length in a state is corrupted to a large value (2^22, 2^40; text: 4000000, 999999999999): the load must
+    end (no signal, no timeout) and must not make the process allocate in proportion to the corrupt number: peak resident
+    memory within 150 MB of what loading the intact state takes (the states are a few kB)"""
+    r = V.rng("C11counts")
+    p = os.path.join(d.path, "dmg.colvars.state")
+    for cfgname in (["extra", "base", "grid"] if quick else ["extra", "base", "grid", "eabf", "twin", "hist", "sabf"]):
+        sess = {"first": 0, "pre": 6, "saves": ["text", "binary"]}
+        if cfgname != "base":
+            sess["config"] = cfgname
+        refs, chunking, rel = reference(vsim, d, sess)
+        text, binary = refs
+        open(p, "wb").write(binary)
+        rc0, ld0, base_rss = load_measured(vsim, d, "dmg.colvars.state", cfgname)
+        cases = []
+        # binary: the 8 bytes after every keyword record, and every 8-byte length word of a string record
+        recs = [m for m in re.finditer(rb"[\x01-\x20]\x00{7}[a-zA-Z_]{3,24}", binary)
+                if struct.unpack("<Q", binary[m.start():m.start() + 8])[0] == m.end() - m.start() - 8]
+        spots = sorted(set([m.end() for m in recs if m.end() + 8 <= len(binary)] + [m.start() for m in recs]))
+        keyspots = [m.end() for m in recs if binary[m.start() + 8:m.end()] in (b"num_hills", b"counter", b"step", b"hills")]
+        spots = sorted(set(keyspots + r.sample(spots, min(len(spots), 6 if quick else 40))))
+        for sp in spots:
+            for val in (1 << 22, 1 << 40):
+                bb = bytearray(binary); bb[sp:sp + 8] = struct.pack("<Q", val)
+                cases.append(("binary", "8 bytes at %d := %d" % (sp, val), bytes(bb), {"at": sp, "value": val}))
+        # text: every integer that follows a word
+        tx = text.decode("latin1")
+        ints = [m for m in re.finditer(r"(?<=[A-Za-z_] )\s*(\d+)(?=\s)", tx)]
+        ints = [m for m in ints if re.search(r"(num_hills|numHills|counter|sizes|step)\s+$", tx[max(0, m.start() - 24):m.start(1)])][:6 if quick else 20] + r.sample(ints, min(len(ints), 3 if quick else 25))
+        for m in ints:
+            for val in ("4000000", "999999999999"):
+                cases.append(("text", "integer at %d := %s" % (m.start(1), val), (tx[:m.start(1)] + val + tx[m.end(1):]).encode("latin1"), {"at": m.start(1), "value": val}))
+        for fmt, what, data, rp in cases:
+            open(p, "wb").write(data)
+            rc, ld, rss = load_measured(vsim, d, "dmg.colvars.state", cfgname)
+            run.count("corrupt-count-%s-%s-%s" % (cfgname, fmt, what), True)
+            run.dist("damage:%s-corrupt-count" % fmt)
+            rp = dict(rp, kind="corrupt-count", config=cfgname, format=fmt)
+            if rc >= 128 or rc == 124 or rc < 0 or ld is None:
+                run.violation("load.crash:corrupt-count", "loading a valid %s state (%s configuration) with %s kills or hangs the process (rc=%d)" % (fmt, cfgname, what, rc), rp)
+            elif rss > base_rss + 150000:
+                run.violation("load.memory:corrupt-count", "loading a valid %d-byte %s state (%s configuration) with %s takes %d MB of resident memory (%d MB for the intact state): "
+                              "the reader allocates in proportion to a number it has not checked against the data" % (len(data), fmt, cfgname, what, rss // 1000, base_rss // 1000), rp)
+    if os.path.exists(p):
+        os.remove(p)
+
+
+def run_sessions_with_failed_loads(run, vsim, d, quick):
+    """a host that keeps running after rejected loads: in ONE process, several damaged states are loaded (each must be
+    rejected or accepted without crashing), then the undamaged state: it must load with err=ok and the right step, and a
+    state saved afterwards must be loadable by a fresh process"""
+    r = V.rng("C11sessions")
+    for cfgname in (["base", "twin"] if quick else ["base", "twin", "grid", "eabf", "extra"]):
+        sess = {"first": 0, "pre": 6, "saves": ["text", "binary"]}
+        if cfgname != "base":
+            sess["config"] = cfgname
+        refs, chunking, rel = reference(vsim, d, sess)
+        for fmt, data in (("text", refs[0]), ("binary", refs[1])):
+            n = len(data)
+            cuts = sorted(r.sample(range(5, n), 4))
+            names = []
+            for i, c in enumerate(cuts):
+                nm = "dmg%d.colvars.state" % i
+                open(os.path.join(d.path, nm), "wb").write(data[:c])
+                names.append(nm)
+            flipped = bytearray(data); k = r.randrange(n); flipped[k] ^= 1 << r.randrange(8)
+            open(os.path.join(d.path, "dmg4.colvars.state"), "wb").write(bytes(flipped)); names.append("dmg4.colvars.state")
+            open(os.path.join(d.path, "good.colvars.state"), "wb").write(data)
+            L = ["natoms %d" % NATOMS.get(cfgname, 2)] + PRELUDE.get(cfgname, []) + ["new", "config EOF"] + CONFIGS[cfgname].strip("\n").split("\n") + ["EOF"]
+            L += ["load %s" % nm for nm in names] + ["load good.colvars.state", "save %s after.colvars.state" % fmt]
+            scn = os.path.join(d.path, "q.scn")
+            open(scn, "w").write("\n".join(L) + "\n")
+            rc, out, err = V.sh(["timeout", "-s", "KILL", "30", vsim, scn], cwd=d.path, timeout=60)
+            loads = re.findall(r"LOAD err=(\S+) it=(-?\d+)", out)
+            run.count("session-failed-loads-%s-%s" % (cfgname, fmt), True)
+            run.dist("damage:failed-loads-then-valid-state")
+            rep_ = {"kind": "load-session", "config": cfgname, "format": fmt, "cuts": cuts, "flip": k, "scenario": "\n".join(L)}
+            want_it = version_of(sess, 0 if fmt == "text" else 1)
+            if rc != 0 or len(loads) != len(names) + 1:
+                run.violation("load.crash:session-with-rejected-loads", "a session that loads %d damaged %s states (%s configuration) and then the valid one dies or hangs (rc=%d, %d of %d loads reported)"
+                              % (len(names), fmt, cfgname, rc, len(loads), len(names) + 1), rep_)
+            elif loads[-1][0] != "ok" or int(loads[-1][1]) != want_it:
+                run.violation("load.valid-state-rejected-after-damaged-loads", "after %d rejected/damaged %s loads in the same session (%s configuration) the valid state loads with err=%s it=%s (expected ok, %d)"
+                              % (len(names), fmt, cfgname, loads[-1][0], loads[-1][1], want_it), rep_)
+            else:
+                rc2, ld2 = try_load_(vsim, d, "after.colvars.state", cfgname)
+                if rc2 != 0 or not ld2 or ld2[0] != "ok" or ld2[1] != want_it:
+                    run.violation("load.state-saved-after-damaged-loads-unreadable", "the %s state saved after rejected loads and a valid load (%s configuration) does not load in a fresh process: rc=%d %s"
+                                  % (fmt, cfgname, rc2, ld2), rep_)
+            for nm in names + ["good.colvars.state", "after.colvars.state", "q.scn"]:
+                pth = os.path.join(d.path, nm)
+                if os.path.exists(pth):
+                    os.remove(pth)
+
+
+def run_large_steps_and_cross_loads(run, vsim, d, quick):
+    """(i) step numbers beyond 2^31, 2^32, 2^53 and near 2^62 through save and load, both formats, file / buffer / string: the
+    step read back must be the step written; (ii) every valid state loaded by every OTHER configuration (objects missing,
+    extra, of other kinds, other grids): no crash or hang, whatever the verdict"""
+    steps = [2**31 + 5, 2**32 + 7, 2**53 + 1, 2**62 - 9]
+    if quick:
+        steps = [2**31 + 5, 2**53 + 1]
+    for st in steps:
+        sess = {"first": st, "pre": 3, "saves": ["text", "binary"]}
+        d.put({})
+        scn = os.path.join(d.path, "r.scn")
+        open(scn, "w").write(scenario(sess, distinct=True))
+        rc, out, err = V.sh([vsim, scn], cwd=d.path, timeout=120)
+        os.remove(scn)
+        want = {0: version_of(sess, 0), 1: version_of(sess, 1)}
+        for i, (fmt, how) in enumerate((("text", "file"), ("binary", "file"), ("text", "str"), ("binary", "buf"))):
+            fi = 0 if fmt == "text" else 1
+            nm = "ref%d.colvars.state" % fi
+            run.count("large-step-%d-%s-%s" % (st, fmt, how), True)
+            run.dist("roundtrip:large-step-number")
+            if not os.path.exists(os.path.join(d.path, nm)):
+                run.violation("statefile.large-step-save-failed", "saving a %s state at step %d leaves no file (rc=%d)" % (fmt, st, rc),
+                              {"kind": "large-step", "step": st, "format": fmt})
+                continue
+            rcl, ld = try_load_(vsim, d, nm, "base", False, how)
+            if rcl != 0 or not ld or ld[0] != "ok" or ld[1] != want[fi]:
+                run.violation("statefile.large-step-roundtrip", "a %s state saved at step %d (> 2^31) and loaded from a %s gives rc=%d %s, expected err=ok it=%d"
+                              % (fmt, want[fi], {"file": "file", "str": "string", "buf": "memory buffer"}[how], rcl, ld, want[fi]),
+                              {"kind": "large-step", "step": st, "format": fmt, "how": how})
+        for fi in (0, 1):
+            pth = os.path.join(d.path, "ref%d.colvars.state" % fi)
+            if os.path.exists(pth):
+                os.remove(pth)
+    names = ["base", "grid", "extra", "eabf", "eabf_nocz", "eabf_harm", "hist", "sabf", "twin"]
+    states = {}
+    for c in names:
+        sess = {"first": 0, "pre": 6, "saves": ["text", "binary"]}
+        if c != "base":
+            sess["config"] = c
+        refs, chunking, rel = reference(vsim, d, sess)
+        states[c] = refs
+    r = V.rng("C11cross")
+    pairs = [(a, b) for a in names for b in names + ["grid8"] if a != b]
+    must = [("grid", "grid8"), ("hist", "grid8")]     # the same objects with other grid boundaries
+    if quick:
+        pairs = must + r.sample([x for x in pairs if x not in must], 10)
+    p = os.path.join(d.path, "dmg.colvars.state")
+    for a, b in pairs:
+        for fi, fmt in ((0, "text"), (1, "binary")):
+            open(p, "wb").write(states[a][fi])
+            rc, ld = try_load_(vsim, d, "dmg.colvars.state", b)
+            run.count("cross-%s-into-%s-%s" % (a, b, fmt), True)
+            run.dist("damage:state-of-another-configuration")
+            if rc >= 128 or rc == 124 or rc < 0 or ld is None:
+                run.violation("load.crash:state-of-another-configuration", "loading the valid %s state of the %s configuration in a session configured as %s kills or hangs the process (rc=%d)"
+                              % (fmt, a, b, rc), {"kind": "cross-load", "state_of": a, "into": b, "format": fmt})
+    if os.path.exists(p):
+        os.remove(p)
+
+
 def run_damage_grid(run, vsim, d, quick, model):
-    for cfgname in ("grid", "extra", "eabf", "eabf_nocz", "eabf_harm", "hist", "sabf"):
+    run_sessions_with_failed_loads(run, vsim, d, quick)
+    run_large_steps_and_cross_loads(run, vsim, d, quick)
+    run_corrupt_counts(run, vsim, d, quick)
+    for cfgname in ("grid", "extra", "eabf", "eabf_nocz", "eabf_harm", "hist", "sabf", "twin", "ti"):
         run_damage_config(run, vsim, d, quick, model, cfgname)
 
 
@@ -935,7 +1180,7 @@ def run_damage_config(run, vsim, d, quick, model, cfgname):
                       {"kind": "load", "format": "text", "config": cfgname, "cut": n})
         return
     if quick:
-        offs = set(r.sample(range(n), min(n, 90 if cfgname in ("grid", "extra") else 45)))
+        offs = set(r.sample(range(n), min(n, 60 if cfgname in ("grid", "extra") else 30)))
         for a, b, kw in obj_blocks:
             offs |= {a, a + 1, b - 1, b, b + 1, (a + b) // 2}
         for m in re.finditer(rb"grid_parameters|hills_energy|\ngrid\n|\}\n [-0-9]", text):
@@ -965,6 +1210,13 @@ def run_damage_config(run, vsim, d, quick, model, cfgname):
     rcm, mout, em = V.run_lines(model, lines, timeout=600)
     ndis = 0
     for (cut, verdict), mo in zip(verdicts, mout + ["<none>"] * (len(lines) - len(mout))):
+        if text[:cut].endswith(b"}") and mo.strip() != verdict:
+            # boundary-ambiguous: the file ends directly after a closing brace (no newline).  getline() then sets eofbit,
+            # the `is.tellg() > pos` test of read_objects_state fails (tellg() on a stream at EOF sets failbit) and the loop goes on
+            # to the next variable/bias, which reports an error.  The token model has no "white space after the last word" bit;
+            # states written by Colvars always end with a newline.
+            run.dist("damage:text-prefix-boundary-ambiguous(EOF-after-brace)")
+            continue
         if mo.strip() != verdict:
             ndis += 1
             run.mismatch("text-reader-tie", {"config": cfgname, "cut": cut, "of": n, "tail": text[max(0, cut - 30):cut].decode("latin1")}, verdict, mo.strip())
@@ -979,9 +1231,10 @@ def run_damage_config(run, vsim, d, quick, model, cfgname):
         for m in re.finditer(rb"[\x01-\x20]\x00{7}[a-z_]{3,22}", binary):
             if struct.unpack("<Q", binary[m.start():m.start() + 8])[0] == m.end() - m.start() - 8:
                 boffs |= set(range(max(5, m.start() - 1), min(nb, m.end() + 9)))
-        if cfgname in ("grid", "extra") and len(boffs) > 150:
-            # (no binary model for these: a sample; the thorough tier takes every offset)
-            boffs = set(r.sample(sorted(boffs), 150)) | set(range(max(5, nb - 16), nb))
+        cap = 100 if cfgname in ("grid", "extra") else 160
+        if len(boffs) > cap:
+            # a sample of them; the thorough tier takes every offset
+            boffs = set(r.sample(sorted(boffs), cap)) | set(range(max(5, nb - 16), nb))
     else:
         # every offset (the binary states of these configurations are small); OPES: every second one
         boffs = set(range(5, nb)) if cfgname != "extra" else (set(range(5, nb, 2)) | set(range(max(5, nb - 40), nb)))
@@ -1120,7 +1373,7 @@ def run_damage(run, vsim, d, quick, model=None):
                     run.mismatch("binary-reader-tie", {"cut": cut, "of": n, "hill_starts": hill_starts[:3]}, verdict, mo.strip())
             stats["binary_reader_model_cases"] = len(lines)
             stats["binary_reader_model_disagreements"] = ndis
-        flips = [(r.randrange(n), r.randrange(8)) for j in range(60 if quick else 1000)]
+        flips = [(r.randrange(n), r.randrange(8)) for j in range(60 if quick else 800)]
         if nm == "text":
             # aimed: every byte of the configuration block (step, dt, version, units and the separators)
             a0 = data.find(b"{"); b0 = data.find(b"}")
@@ -1192,6 +1445,51 @@ def replay(rp, vsim, model):
         for nme in (NAME, NAME + ".old"):
             if os.path.exists(os.path.join(d.path, nme)):
                 print("load", nme, try_load_(vsim, d, nme))
+    elif rp["kind"] in ("load-session", "large-step", "cross-load"):
+        if rp["kind"] == "large-step":
+            sess = {"first": rp["step"], "pre": 3, "saves": ["text", "binary"]}
+            open(os.path.join(d.path, "r.scn"), "w").write(scenario(sess, distinct=True))
+            V.sh([vsim, "r.scn"], cwd=d.path, timeout=120)
+            nm = "ref%d.colvars.state" % (0 if rp["format"] == "text" else 1)
+            print("saved at step", version_of(sess, 0 if rp["format"] == "text" else 1), "->", try_load_(vsim, d, nm, "base", False, rp.get("how", "file")))
+        elif rp["kind"] == "cross-load":
+            sess = {"first": 0, "pre": 6, "saves": ["text", "binary"]}
+            if rp["state_of"] != "base":
+                sess["config"] = rp["state_of"]
+            refs, chunking, rel = reference(vsim, d, sess)
+            open(os.path.join(d.path, "dmg.colvars.state"), "wb").write(refs[0] if rp["format"] == "text" else refs[1])
+            print("state of", rp["state_of"], "into", rp["into"], "->", try_load_(vsim, d, "dmg.colvars.state", rp["into"]))
+        else:
+            cfgname = rp["config"]
+            sess = {"first": 0, "pre": 6, "saves": ["text", "binary"]}
+            if cfgname != "base":
+                sess["config"] = cfgname
+            refs, chunking, rel = reference(vsim, d, sess)
+            data = refs[0] if rp["format"] == "text" else refs[1]
+            for i, c in enumerate(rp["cuts"]):
+                open(os.path.join(d.path, "dmg%d.colvars.state" % i), "wb").write(data[:c])
+            open(os.path.join(d.path, "dmg4.colvars.state"), "wb").write(data)
+            open(os.path.join(d.path, "good.colvars.state"), "wb").write(data)
+            open(os.path.join(d.path, "q.scn"), "w").write(rp["scenario"] + "\n")
+            rc, out, err = V.sh(["timeout", "-s", "KILL", "30", vsim, "q.scn"], cwd=d.path, timeout=60)
+            print("rc", rc, re.findall(r"LOAD err=\S+ it=-?\d+", out), "(dmg4 is the intact state here: the flipped bit is not replayed)")
+    elif rp["kind"] == "corrupt-count":
+        cfgname = rp.get("config", "base")
+        sess = {"first": 0, "pre": 6, "saves": ["text", "binary"]}
+        if cfgname != "base":
+            sess["config"] = cfgname
+        refs, chunking, rel = reference(vsim, d, sess)
+        pth = os.path.join(d.path, "dmg.colvars.state")
+        if rp["format"] == "binary":
+            bb = bytearray(refs[1]); bb[rp["at"]:rp["at"] + 8] = struct.pack("<Q", int(rp["value"])); data = bytes(bb)
+        else:
+            tx = refs[0].decode("latin1")
+            m = re.compile(r"\d+").match(tx, rp["at"])
+            data = (tx[:rp["at"]] + str(rp["value"]) + tx[m.end():]).encode("latin1")
+        open(pth, "wb").write(refs[1] if rp["format"] == "binary" else refs[0])
+        print("intact state: rc, load, maxrss kB =", load_measured(vsim, d, "dmg.colvars.state", cfgname))
+        open(pth, "wb").write(data)
+        print("corrupt state: rc, load, maxrss kB =", load_measured(vsim, d, "dmg.colvars.state", cfgname), "file:", pth)
     elif rp["kind"] == "load-name":
         sess = {"first": 0, "pre": 3, "saves": ["text", "text"]}
         rel, res, rc = run_session(vsim, d, sess, [])
